@@ -18,7 +18,7 @@ from sa.pyfacts import Unknown, attr_chain, call_name, chains_in, get_kw, norm
 from sa.q import Fn, inside, natom
 from sa.report import AnalysisError
 
-LEVEL = "proof"
+LEVEL = "other"
 CONN = "quic.connection:QuicConnection."
 PB = "quic.packet_builder:QuicPacketBuilder."
 
